@@ -141,6 +141,7 @@ structure Snapshot where
   totalCommitted : FMap String := []
   ssTotalValue : Int := 0
   ssRate : Int := 0
+  ssLiveRate : Int := 0              -- GetRedemptionRate: stated value / share supply now (the stored parameter lags behind it)
   ssDenom : String := ""
   debts : List DebtObs := []
   levPools : FMap Nat := []                   -- leveraged lp amount by amm pool id
@@ -211,6 +212,7 @@ def parse (o : Json) : Snapshot :=
     totalCommitted := pairList (f cm "total")
     ssTotalValue := jI (f ss "totalValue")
     ssRate := jI (f ss "rate")
+    ssLiveRate := jI (f (f o "stablestake") "liveRate")
     ssDenom := jS (f ss "denom")
     debts := (jA (f ss "debts")).map fun d =>
       { addr := jS (f d "addr"), borrowed := jI (f d "borrowed"), paid := jI (f d "paid"), stacked := jI (f d "stacked") }
